@@ -288,7 +288,7 @@ EXTRA = {
     'C11': "Complete frames followed by the remote's close inside one readable event, on the real LocalPeer read path.",
     'C12': "A sixth thread plan: a work request racing a block that confirms a pooled transaction; the coarse-grained exploration of C09.",
     'C13': "One output spent by two transactions that differ only in a second valid signature; the coarse-grained thread exploration of C09.",
-    'C14': "Wallets of 2,100 outputs asked for amounts that need exactly 1,978 / 1,979 inputs with and without change (the size limit); a refusal is accepted only when no transaction that fits in a block reaches the amount. One recorded defect (feasible spend refused because of the selection order) is reported as KNOWN-FINDING.",
+    'C14': "Wallets of 2,100 outputs asked for amounts that need exactly 1,978 / 1,979 inputs with and without change (the size limit); a refusal is accepted only when no transaction that fits in a block reaches the amount. Wallets whose ledger order needs more inputs than fit while a largest-first selection fits (with and without change).",
     'C15': "The balance of a wallet object that has built a not yet confirmed spend.",
     'C16': "The validator's reward bound on ledger states in which conflicting transactions with different fees were seen by the same process.",
     'C17': "List lengths around every power of two up to 4,100.",
